@@ -568,7 +568,7 @@ func init() {
 			return 2100
 		},
 		ChunkSize:   25,
-		Rule:        "each case strings 1-5 incidents on one client with an always-calling read loop that waits on ReadBackoff (ReconnectWaitMin 2 ms, Max 16 ms). Incident kinds place a failure relative to the read routine with hook parking and connection gates: another goroutine's request write (Publish, Subscribe, Ping) fails while the read routine is parked right before its acknowledgement flush, parked between saving and writing a PUBREL, blocked in Read, or after it flushed; the read routine meets a protocol violation while a writer is stuck inside Write holding the connection; EOF, reset, expiry inside a packet, a protocol violation; the broker falls silent inside the payload of a message beyond the read buffer that is being skipped (a retransmitted exactly-once duplicate, or one the application chose not to read); the acknowledgement's own write fails; 1-5 consecutive dial failures (plain errors, errors that wrap context.Canceled or DeadlineExceeded, net.ErrClosed, unexpected EOF: none means the Client was closed); a PUBLISH beyond the read buffer that is itself a protocol violation; 1-3 handshakes cut; refusals; resend failures with transfers pending; persisted publishes of both levels issued while the resend of a reconnect is stalled inside a write; a retransmitted exactly-once PUBLISH (its PUBREC is owed at once) met by the read routine after a writer's failure set the connection pending. Before every second incident a Subscribe is brought to the point where it awaits its (withheld) answer on the connection. Oracle after each incident: the failed connection gets closed, the Dialer is invoked again, every request pending on that connection returns, Online is released and a Ping succeeds; 'does not happen' is decided structurally (no event and identical goroutine stacks for the stability window) with the dump as witness. ReadBackoff: non-nil for every error but ErrClosed, idle duration (seen through verifNote) inside [Min, Max], equal to Max after refusals and to the documented doubling otherwise, channel never closed earlier than that duration. Non-trivial: every incident; distinct by incident kind sequence.",
+		Rule:        "each case strings 1-5 incidents on one client with an always-calling read loop that waits on ReadBackoff (ReconnectWaitMin 2 ms, Max 16 ms). Incident kinds place a failure relative to the read routine with hook parking and connection gates: another goroutine's request write (Publish, Subscribe, Ping) fails while the read routine is parked right before its acknowledgement flush, parked between saving and writing a PUBREL, blocked in Read, or after it flushed; the read routine meets a protocol violation while a writer is stuck inside Write holding the connection; EOF, reset, expiry inside a packet, a protocol violation; the broker falls silent inside the payload of a message beyond the read buffer that is being skipped (a retransmitted exactly-once duplicate, or one the application chose not to read); the acknowledgement's own write fails; 1-5 consecutive dial failures (plain errors, errors that wrap context.Canceled or DeadlineExceeded, net.ErrClosed, unexpected EOF: none means the Client was closed); a PUBLISH beyond the read buffer that is itself a protocol violation; 1-3 handshakes cut; refusals; resend failures with transfers pending; persisted publishes of both levels issued while the resend of a reconnect is stalled inside a write; a retransmitted exactly-once PUBLISH (its PUBREC is owed at once) met by the read routine after a writer's failure set the connection pending. Before every second incident a Subscribe is brought to the point where it awaits its (withheld) answer on the connection. One case in a hundred runs the package's own NewDialer and NewTLSDialer on loopback sockets against a listener that accepts and stays silent (no TLS handshake, no CONNACK), accepts and closes, or is gone, with PauseTimeout 150 ms: every ReadSlices fails (wedged is decided on unchanged stacks after forty timeouts on a process that gets processor time) and the next one dials again. Oracle after each incident: the failed connection gets closed, the Dialer is invoked again, every request pending on that connection returns, Online is released and a Ping succeeds; 'does not happen' is decided structurally (no event and identical goroutine stacks for the stability window) with the dump as witness. ReadBackoff: non-nil for every error but ErrClosed, idle duration (seen through verifNote) inside [Min, Max], equal to Max after refusals and to the documented doubling otherwise, channel never closed earlier than that duration. Non-trivial: every incident; distinct by incident kind sequence.",
 		Assumptions: []string{"the stability window is 1.5 s (75 periods of the client's only periodic timer) after an 8 s watchdog; a watchdog expiry with events still flowing is inconclusive", "real time is used to hold nothing; the early-close check of ReadBackoff is the one sound direction of a wall-clock comparison"},
 		Run: func(c *run.Ctx) {
 			n := 1 + c.Rng.Intn(5)
@@ -578,6 +578,12 @@ func init() {
 			}
 			if c.Case < len(incidentKinds) {
 				kinds = []string{incidentKinds[c.Case]}
+			}
+			if c.Case%100 == 99 {
+				// the package's own Dialers on real loopback sockets
+				k := c.Case / 100
+				c10BuiltinDialers(c, k%2 == 0, []string{"accepts and stays silent", "accepts and closes", "is gone"}[k/2%3])
+				return
 			}
 			runIncidents(c, kinds)
 		},
